@@ -126,9 +126,7 @@ func c15Ops() []c15Op {
 	}
 }
 
-func c15Pools() []*vsync.Pool {
-	return []*vsync.Pool{parser.VerifParserPool(), plrt.VerifCtxPool(), input.VerifPointPool(), input.VerifMetaPool()}
-}
+func c15Pools() []*vsync.Pool { return allPools() }
 
 func c15Drain() {
 	for _, p := range c15Pools() {
